@@ -175,8 +175,13 @@ def validate(ctx, label, histories, order=("pinned", "enqfix", "fixed")):
             return variant, {v["h"]: v for v in acc[0]}, len(events)
         rej = [p for (tag, p) in r.prints if tag == "REJECT"]
         last = (variant, rej[0] if rej else None)
-    raise kit.Inconclusive("recorded traces (%s) are not behaviours of any variant of Discovery.tla; last: %s"
-                           % (label, json.dumps(last)[:600]))
+    # MODEL-DRIFT: no variant of the module explains what the code did. That alone is not a verdict: the executions are
+    # still judged by the property's own predicate (evaluated by the harness); if none of them violates it the run ends
+    # inconclusive (see the end of run()).
+    with _trace_lock:
+        ctx.cov.setdefault("model_drift", []).append({"label": label, "last": json.dumps(last)[:600]})
+    ctx.notes.append("MODEL-DRIFT module=Discovery traces=%s last=%s" % (label, json.dumps(last)[:300]))
+    return "none", {}, len(events)
 
 
 def variant_order(results):
@@ -399,6 +404,9 @@ def run(ctx):
                       {"scenario": r["name"], "scope": scope, "result": o}, estats)
         ctx.cov["e2e"] = {"scenarios": [r["name"] for r in res["e2e"]], "verdicts": estats}
 
+    if ctx.cov.get("model_drift") and not ctx.violations and not ctx.known_hits:
+        raise kit.Inconclusive("recorded traces are not behaviours of any variant of Discovery.tla and no execution violated the "
+                               "property predicate (model drift): %s" % ctx.cov["model_drift"][0])
     ctx.cov["rule"] = ("exhaustive: every reachable state of Discovery.tla for 3 services, capacity 2, <=6 (quick: 4) caller operations, "
                        "<=2 failures. cases = behaviours emitted by TLC (all counterexample states of the pinned variants + seeded "
                        "simulations of the intended design, distinct by their environment-level step sequence; non-trivial = contains a "
